@@ -91,6 +91,16 @@ def naming_matrix(ir, rng):
                 md['port_type'] = 'PtA' if i % 3 else 'PtB'
                 methods.append(md)
                 i += 1
+    # bare and out-bare methods whose response element is of another type than the request element: a class the interface knows
+    # already, a primitive, an array
+    for j, (style, args, rets) in enumerate([
+            ('bare', [['arg', {'ref': 'Hx0'}]], [{'ref': 'Hx2'}]),
+            ('bare', [['arg', {'ref': 'Hx2'}]], [prim('Unicode')]),
+            ('out_bare', [['a', prim('Integer')]], [prim('Unicode')]),
+            ('out_bare', [['a', prim('Unicode')], ['b', prim('Integer')]], [{'ref': 'Hx0'}]),
+            ('out_bare', [['a', prim('Unicode')]], [{'array': prim('Integer')}]),
+            ('out_bare', [['a', {'ref': 'Hx1'}]], [prim('Integer')])]):
+        methods.append({'name': 'bm%d' % j, 'args': args, 'returns': rets, 'style': style, 'port_type': 'PtA' if j % 2 else 'PtB'})
     ir['services'] = [{'name': 'NamingSvc', 'methods': methods, 'port_types': ['PtA', 'PtB']}]
 
 
@@ -346,6 +356,7 @@ def check_zeep(R, seed, uid, ir, tier, repro):
         for sd in ir['services']:
             for md in sd['methods']:
                 if md['style'] != 'wrapped':
+                    described_reply(R, B, W, wsgi, ir, md, kind, rng, dict(repro, kind=kind, method=md['name']))
                     continue
                 for k in range(2 if tier == 'quick' else 4):
                     args = [gen.gen_value(rng, ir, t) for _, t in md['args']]
@@ -355,6 +366,54 @@ def check_zeep(R, seed, uid, ir, tier, repro):
                         R.skip('value class zeep cannot represent')
                         continue
                     one_zeep_call(R, B, W, S, Z, ir, md, args, rets, dict(repro, kind=kind, method=md['name'], call=k))
+
+
+def described_reply(R, B, W, wsgi, ir, md, kind, rng, repro):
+    """bare / out-bare methods (which the zeep driver of this check does not call): the reply to a request built from the WSDL is
+    decoded by nothing but what the WSDL says about the response element - its declared type has to be the type of what is returned"""
+    args = [gen.gen_value(rng, ir, t, top=(md['style'] == 'bare')) for _, t in md['args']]
+    rets = [gen.gen_value(rng, ir, t, top=True) for t in md['returns']]
+    try:
+        el = W.request_element(md, args)
+    except (refxml.NotConformant, refxml.SchemaMismatch) as e:
+        if isinstance(e, refxml.SchemaMismatch):
+            R.violation('the request element the WSDL describes for %s does not fit the declared arguments: %s' % (md['name'], str(e)[:200]), repro,
+                        mech='described_request_differs:%s' % md['style'])
+        return
+    sp = [B.to_spyne(t, v) for t, v in zip(md['returns'], rets)]
+    B.returns[md['name']] = sp[0] if len(sp) == 1 else (tuple(sp) if sp else None)
+    B.calls[:] = []
+    data = W.serialize(W.envelope(el, 11 if kind == 'soap11' else 12))
+    env, inp = drive.make_environ('POST', '/', '', data, 'text/xml; charset=utf-8' if kind == 'soap11' else 'application/soap+xml; charset=utf-8')
+    r = drive.call_wsgi(wsgi, env, inp)
+    R.evaluations += 1
+    R.count('described_replies')
+    if r.exc is not None or (r.code or 0) >= 400:
+        R.skip('bare request not served (C01 matter)')
+        return
+    try:
+        h, kids = W.open_envelope(r.body, 11 if kind == 'soap11' else 12)
+        dec = W.decode_response_element(md, kids[0])
+    except refxml.SchemaMismatch as e:
+        R.violation('the response element the WSDL describes for %s does not fit what the method returns: %s' % (md['name'], str(e)[:200]),
+                    dict(repro, response=r.body[:600].decode('utf8', 'replace')), mech='described_response_differs:%s' % md['style'])
+        return
+    except Exception as e:
+        import re
+        if re.search(r"not an xs:decimal literal: '-?[0-9.]+E[+-]?[0-9]+'", str(e)):
+            R.skip('a Decimal written with an exponent (the C01/C08 finding decimal_exponent_print, not a matter of the WSDL)')
+            return
+        R.violation('the reply of %s cannot be decoded by what the WSDL says about its response element: %s: %s' % (
+            md['name'], type(e).__name__, str(e)[:200]), dict(repro, response=r.body[:600].decode('utf8', 'replace')),
+            mech='described_response_undecodable:%s' % md['style'])
+        return
+    for i, (rt, sent, got) in enumerate(zip(md['returns'], rets, dec)):
+        d = []
+        if not gen.veq(ir, rt, sent, got, 'ret%d' % i, d):
+            R.violation('the reply of %s decoded by the WSDL alone differs from the value returned: %s' % (md['name'], '; '.join(d)[:300]),
+                        dict(repro, response=r.body[:600].decode('utf8', 'replace')), mech='described_response_value_differs:%s' % md['style'])
+            return
+    R.nontrivial('described_reply', kind, md['style'], tuple(gen.shape(t) for t in md['returns']))
 
 
 def zeep_load_kind(e, ir=None, wsdl=b''):
